@@ -512,10 +512,10 @@ func (sc *rlScenario) schedBody(v rlVariant, dir string) func(x *sched.Exec) {
 			})
 		}
 		x.Run()
-		if x.Err == nil && !x.Deadlock && !reloaded {
+		if x.Err == nil && !x.Deadlock && !x.SleepBlocked && !reloaded {
 			x.Err = errors.New("reload of a valid, reloadable configuration was refused")
 		}
-		if x.Err == nil && !x.Deadlock {
+		if x.Err == nil && !x.Deadlock && !x.SleepBlocked {
 			// the overlapping requests: served under the old or under the new configuration
 			s, err := takeSnap(w.st)
 			if err != nil {
@@ -566,33 +566,37 @@ func rlVioKey(f *sched.Failure) string {
 }
 
 func rlVariants(thorough bool) []rlVariant {
-	vs := []rlVariant{{false, []string{"old"}}, {true, []string{"old"}}}
+	vs := []rlVariant{{false, []string{"old"}}, {true, []string{"old"}}, {false, []string{"none"}}}
 	if thorough {
-		vs = append(vs, rlVariant{false, []string{"none"}}, rlVariant{false, []string{"new"}}, rlVariant{false, []string{"old", "new"}}, rlVariant{true, []string{"old", "old"}})
+		vs = append(vs, rlVariant{false, []string{"new"}}, rlVariant{true, []string{"none"}}, rlVariant{false, []string{"old", "new"}}, rlVariant{false, []string{"old", "none"}}, rlVariant{true, []string{"old", "old"}})
 	}
 	return vs
 }
 
 // runReloadSched: in the parent it runs every exploration (sharded over child processes); in a shard child only the
-// one the parent asked for.
+// one the parent asked for. Every (scenario, variant) is explored twice: every schedule within a preemption bound, and
+// unbounded with sleep sets (partial-order reduction over lock/atomic footprints).
 func runReloadSched(t *testing.T, r *runner.Run) {
 	http.DefaultTransport = svcRT{}
 	n := 0
+	dir := filepath.Join(runner.Scratch(), "reload-sched")
 	for _, sc := range rlScenarios() {
 		for _, v := range rlVariants(r.Thorough()) {
 			sc, v := sc, v
 			name := "reload/" + sc.name + "/" + v.String()
 			bound := runner.Pick(r, 2, 3)
-			if b := os.Getenv("C08_BOUND"); b != "" {
-				bound, _ = strconv.Atoi(b)
-			}
 			if len(v.ovl) > 1 {
 				bound = 2
 			}
-			dir := filepath.Join(runner.Scratch(), "reload-sched")
-			schedrun.Run(r, t, schedrun.Spec{Name: name, Bound: bound, Shards: runner.Pick(r, 2, 4), Budget: runner.Pick(r, 12*time.Second, 90*time.Second), MaxExecs: 400000,
+			if b := os.Getenv("C08_BOUND"); b != "" {
+				bound, _ = strconv.Atoi(b)
+			}
+			budget := runner.Pick(r, 10*time.Second, 90*time.Second)
+			schedrun.Run(r, t, schedrun.Spec{Name: name + "/pb", Bound: bound, Shards: runner.Pick(r, 2, 4), Budget: budget, MaxExecs: 400000,
 				Body: sc.schedBody(v, dir), Oracle: rlOracle, VioKey: rlVioKey})
-			n++
+			schedrun.Run(r, t, schedrun.Spec{Name: name + "/sleep", Bound: -1, Sleep: true, Shards: runner.Pick(r, 1, 2), Budget: budget, MaxExecs: 400000,
+				Body: sc.schedBody(v, dir), Oracle: rlOracle, VioKey: rlVioKey})
+			n += 2
 		}
 	}
 	r.Set("reload_sched_explorations", n)
